@@ -305,6 +305,23 @@ func returnValues(ret *ssa.Return) []ssa.Value {
 		if !ok {
 			continue
 		}
+		// a result cell is only ever stored to and loaded as a whole; a local variable whose fields are
+		// addressed is not one
+		plain := true
+		for _, ref := range *a.Referrers() {
+			switch x := ref.(type) {
+			case *ssa.Store:
+				if x.Addr != ssa.Value(a) {
+					plain = false
+				}
+			case *ssa.UnOp:
+			default:
+				plain = false
+			}
+		}
+		if !plain {
+			continue
+		}
 		var last ssa.Value
 		for _, in := range ret.Block().Instrs {
 			if in == ssa.Instruction(u) {
